@@ -127,11 +127,15 @@ func (fr *Frame) canInline(callee *ssa.Function) bool {
 	if !fr.q.eng.inRepo(callee) {
 		return false
 	}
+	// helpers of the same package only: a callee from another package is seen through its contract or its write set
+	if !fr.q.opts.InlineAcrossPkgs && funcPkgPath(callee) != funcPkgPath(fr.root().fn) {
+		return false
+	}
 	return n <= 120
 }
 
 func (fr *Frame) havocMod(st *State, ms *ModSet) {
-	restore := fr.snapshotLocals(st, nil)
+	restore := fr.snapshotLocalsFor(st, nil, ms)
 	fr.havocMod0(st, ms)
 	restore(st)
 }
@@ -732,7 +736,7 @@ func (fr *Frame) loopHeaderState(li *loopInfo, in *State) *State {
 			}
 		}
 	}
-	restore := fr.snapshotLocals(hs, func(a *ssa.Alloc) bool { return stored[a] || li.blocks[a.Block()] })
+	restore := fr.snapshotLocalsFor(hs, func(a *ssa.Alloc) bool { return stored[a] || li.blocks[a.Block()] }, ms)
 	fr.havocMod0(hs, ms)
 	restore(hs)
 	// ghost scalars may change in loops too
